@@ -803,10 +803,10 @@ impl<'a> Sim<'a> {
                     arcs.push(self.env.voice(v).map_err(|e| Stop::Harness(HarnessError(e)))?.0);
                 }
                 let mut expect = if voices.is_empty() { "empty" } else { "ok" };
-                if let Some((pos, field)) = mutate {
+                if let Some((pos, field, variant)) = mutate {
                     if *pos < arcs.len() && arcs.len() >= 2 {
                         let mut v: Voice = (*arcs[*pos]).clone();
-                        if mutate_meta(&mut v, *field) {
+                        if mutate_meta(&mut v, *field, *variant) {
                             arcs[*pos] = Arc::new(v);
                             expect = "metadata";
                         }
@@ -816,8 +816,10 @@ impl<'a> Sim<'a> {
                 self.nontrivial = true;
                 let r = guarded(|| VoiceSet::new(arcs).map(|vs| vs.len()));
                 self.stats.probe(&format!("vsnew:{}", expect));
-                if let Some((_, f)) = mutate {
+                if let Some((pos, f, variant)) = mutate {
                     if expect == "metadata" {
+                        self.stats.probe(&format!("vsnew_variant:{}", variant % 3));
+                        self.stats.probe(if *pos == 0 { "vsnew_mutated_first_voice" } else if *pos == 1 { "vsnew_mutated_second_voice" } else { "vsnew_mutated_third_or_later_voice" });
                         self.stats.probe(&format!("vsnew_field:{}", f.to_text().split(':').next().unwrap()));
                     }
                 }
@@ -833,7 +835,7 @@ impl<'a> Sim<'a> {
                     Ok(Err(_)) => "other-error",
                     Err(_) => "panic",
                 };
-                let fieldname = mutate.map(|(_, f)| f.to_text().split(':').next().unwrap().to_string()).unwrap_or_default();
+                let fieldname = mutate.map(|(_, f, _)| f.to_text().split(':').next().unwrap().to_string()).unwrap_or_default();
                 let good = match expect {
                     "ok" => got == "ok",
                     // an empty list / a metadata difference must be rejected *with an error*
@@ -844,7 +846,7 @@ impl<'a> Sim<'a> {
                     return Err(self.viol(
                         "C19.voiceset-validation",
                         format!("expected-{}-got-{}:{}", expect, got, fieldname),
-                        format!("VoiceSet::new over {} voices (mutated: {:?}) returned {}, expected {}", voices.len(), mutate.map(|(p, f)| format!("{}@{}", f.to_text(), p)), got, expect),
+                        format!("VoiceSet::new over {} voices (mutated: {:?}) returned {}, expected {}", voices.len(), mutate.map(|(p, f, v)| format!("{}@{}/variant{}", f.to_text(), p, v)), got, expect),
                     ));
                 }
                 Ok(())
@@ -1238,40 +1240,85 @@ fn which_class(w: &Which) -> &'static str {
     }
 }
 
-/// Change exactly one metadata field of a voice. Returns false if the field does not exist.
-pub fn mutate_meta(v: &mut Voice, f: MetaField) -> bool {
-    match f {
-        MetaField::SamplingRate => v.metadata.sampling_frequency += 1,
-        MetaField::FramePeriod => v.metadata.frame_period += 1,
-        MetaField::NumStates => v.metadata.num_states += 1,
-        MetaField::NumStreams => v.metadata.num_streams += 1,
-        MetaField::StreamType => {
-            if let Some(s) = v.metadata.stream_type.last_mut() {
-                s.push('X');
-            } else {
-                return false;
+/// Change exactly one metadata field of a voice. `variant`: 0 grow / append / flip, 1 shrink / remove,
+/// 2 alter in place. Returns false if the field does not exist or the variant cannot change it.
+pub fn mutate_meta(v: &mut Voice, f: MetaField, variant: u8) -> bool {
+    fn num(x: &mut usize, variant: u8) -> bool {
+        match variant % 3 {
+            0 => *x += 1,
+            1 => {
+                if *x == 0 {
+                    return false;
+                }
+                *x -= 1
             }
+            _ => *x = x.wrapping_mul(2).wrapping_add(3),
         }
+        true
+    }
+    fn opt(o: &mut Vec<String>, variant: u8) -> bool {
+        match variant % 3 {
+            0 => o.push("X=1".to_string()),
+            1 => {
+                if o.pop().is_none() {
+                    return false;
+                }
+            }
+            _ => match o.first_mut() {
+                Some(s) => s.push('9'),
+                None => return false,
+            },
+        }
+        true
+    }
+    match f {
+        MetaField::SamplingRate => num(&mut v.metadata.sampling_frequency, variant),
+        MetaField::FramePeriod => num(&mut v.metadata.frame_period, variant),
+        MetaField::NumStates => num(&mut v.metadata.num_states, variant),
+        MetaField::NumStreams => num(&mut v.metadata.num_streams, variant),
+        MetaField::StreamType => match variant % 3 {
+            0 => match v.metadata.stream_type.last_mut() {
+                Some(s) => {
+                    s.push('X');
+                    true
+                }
+                None => false,
+            },
+            1 => v.metadata.stream_type.pop().is_some(),
+            _ => {
+                if v.metadata.stream_type.len() >= 2 {
+                    v.metadata.stream_type.swap(0, 1);
+                    true
+                } else {
+                    false
+                }
+            }
+        },
         MetaField::VectorLength(i) => match v.stream_models.get_mut(i) {
-            Some(s) => s.metadata.vector_length += 1,
-            None => return false,
+            Some(s) => num(&mut s.metadata.vector_length, variant),
+            None => false,
         },
         MetaField::NumWindows(i) => match v.stream_models.get_mut(i) {
-            Some(s) => s.metadata.num_windows += 1,
-            None => return false,
+            Some(s) => num(&mut s.metadata.num_windows, variant),
+            None => false,
         },
         MetaField::IsMsd(i) => match v.stream_models.get_mut(i) {
-            Some(s) => s.metadata.is_msd = !s.metadata.is_msd,
-            None => return false,
+            Some(s) => {
+                s.metadata.is_msd = !s.metadata.is_msd;
+                true
+            }
+            None => false,
         },
         MetaField::UseGv(i) => match v.stream_models.get_mut(i) {
-            Some(s) => s.metadata.use_gv = !s.metadata.use_gv,
-            None => return false,
+            Some(s) => {
+                s.metadata.use_gv = !s.metadata.use_gv;
+                true
+            }
+            None => false,
         },
         MetaField::Option(i) => match v.stream_models.get_mut(i) {
-            Some(s) => s.metadata.option.push("X=1".to_string()),
-            None => return false,
+            Some(s) => opt(&mut s.metadata.option, variant),
+            None => false,
         },
     }
-    true
 }
